@@ -68,5 +68,12 @@ void harness(void)
                 __CPROVER_assert(l_p != s[0] || (d < sn && l[p + d] != s[d]), "memmem: no earlier occurrence: some byte differs at every earlier position");
         }
     }
+#ifndef REPLAY
+    /* the contract clause callers use (contracts/c19_libc.h): same facts, witness handed over in g_mm_d */
+    g_mm_j = j;
+    g_mm_watch = g_memcmp_watch;
+    g_mm_d = (sn == 0 || sn == 1 || l_p != s[0]) ? 0 : g_memcmp_d;
+    __CPROVER_assert(C19_MEMMEM_POST(r, l, ln, s, sn), "memmem: contract clause C19_MEMMEM_POST (first occurrence or NULL)");
+#endif
     CANARY("memmem harness end reachable");
 }
